@@ -39,13 +39,13 @@ RULE = ("universe: 2 regions, local ids 1..5, 5 objects; alphabet of 38 concrete
 ASSUMPTIONS = [
     "all objects are primitives (avatars as children of killed objects are a deliberate special case in the code)",
     "updates only name regions the session tracks; a torn-down region is tracked again before further updates",
-    "a request for an object that never appears may stay pending; requests must be resolved by the matching update and "
+    "a request for an object that never appears may stay pending; a request for an object that moves to another region / local id must not stay pending; requests must be resolved by the matching update and "
     "cancelled by a kill of that local id or a teardown of its region",
     "child order is not asserted (link order is guesswork in the code by its own comments)",
 ]
 MUST_REACH = {"steps": 5000, "states": 300, "orphans_adopted": 20, "cascade_kills": 20, "region_moves": 20,
               "local_id_changes": 10, "teardowns": 20, "futures_resolved": 20, "futures_cancelled": 20, "reparents": 20,
-              "multi_orphan_lists": 10, "kills_of_unknown_with_orphans": 5, "steps_without_loop_iteration": 50}
+              "multi_orphan_lists": 10, "kills_of_unknown_with_orphans": 5, "steps_without_loop_iteration": 50, "requests_pending_when_object_left": 5}
 
 HA = (1000 << 32) | 1000
 HB = (1001 << 32) | 1000
@@ -311,6 +311,9 @@ class World:
             builder = object_update if kind == "U" else compressed_update
             self.handle(rn, builder(HANDLES[rn], local, FULL[fidx], parent))
             self.expect_resolved(rn, local, "UPDATE")
+            if old is not None and (old[0] != rn or old[1] != local):
+                # the object left its old (region, local id) without a kill: nothing can answer requests for that id any more
+                self.expect_left(old[0], old[1])
         elif kind == "T":
             rn, local = args
             self.path.append(name)
@@ -404,6 +407,17 @@ class World:
                 elif not ent[3].cancelled():
                     self.ctx.count("futures_resolved")
         self.futures = [e for e in self.futures if not (e[0] == rn and e[1] == local and e[2] == kind)]
+
+    def expect_left(self, rn, local):
+        for ent in self.futures:
+            if ent[0] == rn and ent[1] == local:
+                self.ctx.count("requests_pending_when_object_left")
+                if not ent[3].done():
+                    self.viol("future-pending-after-object-left:" + ent[2].lower(), "an object request is still pending after the "
+                              "object moved to another region / local id", local=local, region=rn, kind=ent[2])
+                elif ent[3].cancelled():
+                    self.ctx.count("futures_cancelled")
+        self.futures = [e for e in self.futures if not (e[0] == rn and e[1] == local)]
 
     def expect_cancelled(self, rn, local):
         for ent in self.futures:
